@@ -497,7 +497,7 @@ Definition w_gen (c : contents) : option gentext := Some ("main+" ++ c)%string.
 Definition w_compile (e : envid) (c : contents) (g : gentext) : option program := Some (e ++ "/" ++ c)%string.
 Definition w_behave (q : program) (D : dir) (a : args) : result := (q, 0%Z).
 Definition w_fs (mf : dir -> contents) (env : dir -> envid) : fsys :=
-  {| f_mf := mf; f_env := env; f_main := fun _ => None; f_cache := fun _ => None |}.
+  {| f_mf := mf; f_env := env; f_main := fun _ => None; f_cache := fun _ => None; f_out := fun _ => None |}.
 Definition w_inv (D : dir) (hashfast : bool) : inv :=
   {| i_dir := D; i_hashfast := hashfast; i_gocache := true; i_force := false; i_args := "t" |}.
 
@@ -592,3 +592,135 @@ Lemma shared_entry_refuted_ex :
 Proof.
   exists w_name, w_gen, w_compile, w_behave, w_ctx_invs, w_ctx_fs, w_ctx_sched. exact shared_entry_refuted.
 Qed.
+
+(* ------------------------------------------------------------------ the general system: every command *)
+Section General.
+Variable name : contents -> ename.
+Variable gen : contents -> option gentext.
+Variable compile : envid -> contents -> gentext -> option program.
+Variable behave : program -> dir -> args -> result.
+Notation gstep := (gstep name gen compile behave).
+Notation gsys_step := (gsys_step name gen compile behave).
+Notation grun := (grun name gen compile behave).
+Notation run := (run name gen compile behave).
+
+Ltac gbreak H :=
+  repeat match type of H with
+         | context [match ?x with _ => _ end] => let E := fresh "E" in destruct x eqn:E
+         | context [if ?x then _ else _] => let E := fresh "E" in destruct x eqn:E
+         end.
+
+Lemma gstep_rank : forall i g fs p fs' p', gstep i g fs p = (fs', p') -> rank (p_pc p') <= pred (rank (p_pc p)).
+Proof.
+  intros i g fs p fs' p' H. unfold Procs.gstep in H.
+  destruct (g_cmd g).
+  - eapply step_rank; eauto.
+  - unfold Procs.step_compile in H. destruct (p_pc p) eqn:PC; gbreak H; inversion H; subst; simpl; try rewrite PC; simpl; lia.
+  - destruct (p_pc p) eqn:PC; inversion H; subst; simpl; try rewrite PC; simpl; lia.
+  - destruct (p_pc p) eqn:PC; inversion H; subst; simpl; try rewrite PC; simpl; lia.
+Qed.
+
+Lemma gsys_step_length : forall ginvs s i, length (s_procs (gsys_step ginvs s i)) = length (s_procs s).
+Proof.
+  intros. unfold Procs.gsys_step. destruct (nth_error ginvs i); auto. destruct (nth_error (s_procs s) i); auto.
+  destruct (gstep _ _ _ _). simpl. apply set_nth_length.
+Qed.
+
+Lemma gsys_step_other : forall ginvs s i j, j <> i ->
+  nth_error (s_procs (gsys_step ginvs s i)) j = nth_error (s_procs s) j.
+Proof.
+  intros. unfold Procs.gsys_step. destruct (nth_error ginvs i); auto. destruct (nth_error (s_procs s) i); auto.
+  destruct (gstep _ _ _ _). simpl. apply nth_error_set_nth_neq. congruence.
+Qed.
+
+Lemma gsys_step_rank : forall ginvs s i, length (s_procs s) = length ginvs ->
+  rank_of (gsys_step ginvs s i) i <= pred (rank_of s i).
+Proof.
+  intros ginvs s i HL. unfold rank_of at 2.
+  destruct (nth_error (s_procs s) i) as [p|] eqn:Ep.
+  - destruct (nth_error_both _ _ ginvs _ i p HL Ep) as [g Ei].
+    unfold rank_of, Procs.gsys_step. rewrite Ei, Ep.
+    destruct (gstep i g (s_fs s) p) as [fs' p'] eqn:Es. simpl.
+    rewrite (nth_error_set_nth_eq _ _ _ _ _ Ep). eapply gstep_rank; eauto.
+  - unfold rank_of, Procs.gsys_step. rewrite Ep. destruct (nth_error ginvs i); rewrite Ep; simpl; lia.
+Qed.
+
+Lemma grun_from_rank : forall ginvs i sched s, length (s_procs s) = length ginvs ->
+  rank_of (fold_left (gsys_step ginvs) sched s) i <= rank_of s i - count_occ Nat.eq_dec sched i.
+Proof.
+  intros ginvs i. induction sched as [|k r IH]; intros s HL; simpl.
+  - lia.
+  - assert (length (s_procs (gsys_step ginvs s k)) = length ginvs) as HL' by (rewrite gsys_step_length; exact HL).
+    specialize (IH _ HL').
+    destruct (Nat.eq_dec k i) as [->|Hne].
+    + pose proof (gsys_step_rank ginvs s i HL). lia.
+    + assert (rank_of (gsys_step ginvs s k) i = rank_of s i) as R
+        by (unfold rank_of; rewrite gsys_step_other by congruence; reflexivity).
+      lia.
+Qed.
+
+Lemma grun_length : forall ginvs sched s, length (s_procs (fold_left (gsys_step ginvs) sched s)) = length (s_procs s).
+Proof.
+  intros ginvs. induction sched; simpl; intros; auto. rewrite IHsched. apply gsys_step_length.
+Qed.
+
+(* nobody blocks anybody, whatever the commands: run, -compile, -clean, -init *)
+Lemma gno_blocking : forall ginvs fs0 sched i, i < length ginvs -> fuel <= count_occ Nat.eq_dec sched i ->
+  exists r, result_of (grun ginvs fs0 sched) i = Some r.
+Proof.
+  intros ginvs fs0 sched i Hi Hc.
+  assert (length (s_procs (ginit ginvs fs0)) = length ginvs) as HL by (simpl; apply map_length).
+  pose proof (grun_from_rank ginvs i sched _ HL) as R.
+  assert (rank_of (ginit ginvs fs0) i = fuel) as R0.
+  { unfold rank_of, ginit. simpl. destruct (nth_error (map (fun _ => proc0) ginvs) i) eqn:E.
+    - apply nth_error_map_const in E. subst. reflexivity.
+    - apply nth_error_None in E. rewrite map_length in E. lia. }
+  rewrite R0 in R. fold (grun ginvs fs0 sched) in R.
+  assert (i < length (s_procs (grun ginvs fs0 sched))) as Hlt
+    by (unfold Procs.grun; rewrite grun_length, HL; assumption).
+  destruct (nth_error (s_procs (grun ginvs fs0 sched)) i) as [p|] eqn:Ep.
+  - exists (p_res p). apply rank0_done; auto. lia.
+  - apply nth_error_None in Ep. lia.
+Qed.
+
+(* restricted to plain runs the general system IS the run system, so every theorem about [run] is one about [grun] *)
+Lemma gsys_step_as_run : forall invs s i, gsys_step (map as_run invs) s i = sys_step name gen compile behave invs s i.
+Proof.
+  intros invs s i. unfold Procs.gsys_step, Procs.sys_step.
+  rewrite nth_error_map. destruct (nth_error invs i) as [iv|]; simpl; reflexivity.
+Qed.
+
+Lemma grun_as_run : forall invs fs0 sched, grun (map as_run invs) fs0 sched = run invs fs0 sched.
+Proof.
+  intros invs fs0 sched. unfold Procs.grun, Procs.run, Procs.run_from, Procs.ginit, Procs.init.
+  rewrite map_map. generalize ({| s_fs := fs0; s_procs := map (fun _ : inv => proc0) invs |}).
+  induction sched as [|k r IH]; intros s; simpl; auto. rewrite gsys_step_as_run. apply IH.
+Qed.
+End General.
+
+(* mage -clean next to a run (distinct directories, shared cache): the cleaner empties the cache between the
+   runner's build and its exec; the runner fails although alone it succeeds *)
+Definition w_clean_ginvs : list ginv := [as_run (w_inv 0 false);
+  {| g_inv := {| i_dir := 1; i_hashfast := false; i_gocache := true; i_force := false; i_args := "-clean" |}; g_cmd := CClean |}].
+Definition w_clean_sched := repeat 0 10 ++ [1] ++ repeat 0 2.
+
+Lemma clean_refuted_ex :
+  exists name gen compile behave ginvs fs0 sched,
+    NoDup (map (fun g => i_dir (g_inv g)) ginvs) /\
+    result_of (grun name gen compile behave ginvs fs0 sched) 0 = Some fail /\
+    galone name gen compile behave ginvs fs0 0 = Some ("env/m", 0%Z).
+Proof.
+  exists w_name, w_gen, w_compile, w_behave, w_clean_ginvs, w_same_fs, w_clean_sched.
+  split.
+  - simpl. repeat constructor; simpl; intuition discriminate.
+  - vm_compute. split; reflexivity.
+Qed.
+
+(* mage -compile in a twin directory (identical magefiles) next to a run: never touches the cache *)
+Definition w_compile_ginvs : list ginv := [as_run (w_inv 0 false);
+  {| g_inv := {| i_dir := 1; i_hashfast := false; i_gocache := true; i_force := false; i_args := "-compile" |}; g_cmd := CCompile |}].
+Lemma compile_example :
+  map (result_of (grun w_name w_gen w_compile w_behave w_compile_ginvs w_same_fs (flat_map (fun _ => [0; 1]) (seq 0 12)))) [0; 1] =
+    [Some ("env/m", 0%Z); Some ("", 0%Z)] /\
+  map (galone w_name w_gen w_compile w_behave w_compile_ginvs w_same_fs) [0; 1] = [Some ("env/m", 0%Z); Some ("", 0%Z)].
+Proof. vm_compute. split; reflexivity. Qed.
